@@ -37,7 +37,7 @@ theorem matchesWord_spec (E : Ext) (hE : ExtOk E) (p s : Text) :
     rw [hb]
     congr 1
     rw [Bool.eq_iff_iff, hiff, wordDecide_iff_WordMatch]
-  · unfold matchesWord
+  · unfold matchesWord matchesWordImpl
     by_cases hs : s = p
     · subst hs
       simp only [if_true]
@@ -62,6 +62,15 @@ theorem matchesPattern_spec (E : Ext) (hE : ExtOk E) (value pattern : Text) (mat
     rw [Bool.eq_iff_iff, hE.wild_iff, globDecide_iff_Glob]
   · simp only [if_true]
     exact matchesWord_spec E hE _ _
+
+/-- `contains_word` never panics and decides the spec's "contains the word as literal text". -/
+theorem containsWord_spec (E : Ext) (value word : Text) :
+    containsWord E value word = .ok (Ruma.Spec.Glob.containsWordDecide E.lower word value) := by
+  unfold containsWord Ruma.Spec.Glob.containsWordDecide
+  obtain ⟨b, hb, hiff⟩ := matchesWordImpl_literal E (E.lower word) (E.lower value)
+  rw [hb]
+  congr 1
+  rw [Bool.eq_iff_iff, hiff, Ruma.Spec.Glob.literalWordDecide_iff]
 
 /-- The reference instances satisfy the assumptions. -/
 theorem refExt_ok (lower : Text → Text) (isUserId : Text → Bool) :
